@@ -7,7 +7,7 @@ from props import c02
 
 ID = "C03"
 LEVEL = "proof"
-THEOREMS = ["C03_assignment_rereads_partial", "C03_structure_sequences_are_its_strands", "C03_duplex_bonds", "C03_duplex_forces_complement", "C03_binding_equal", "C03_binding_complement", "C03_signal_lines"]
+THEOREMS = ["C03_assignment_rereads_partial", "C03_structure_sequences_are_its_strands", "C03_duplex_bonds", "C03_duplex_forces_complement", "C03_binding_equal", "C03_binding_complement", "C03_signal_lines", "C03_component_document_equivalent", "C03_system_document_equivalent", "C03_hypotheses_sound", "C03_system_nonvacuous"]
 TRUSTED = c02.TRUSTED + ["harness reader of .des files and the partition oracle (parity union-find over sequence nucleotides on both sides, compared on the structures' positions)"]
 ASSUMPTIONS = c02.ASSUMPTIONS
 
@@ -153,7 +153,7 @@ def run(tier, seed, build):
             cases.append(c02.gen_case(rng))
     impl = fw.run_impl("props.c03", "impl_case", [{k: v for k, v in c.items() if not k.startswith("_")} for c in cases], per_case_timeout=60)
     model = fw.run_model([["des", [c["entries"], c["includes"], r.get("ctr0", 0) if isinstance(r, dict) else 0, c["base"], c["args"]]] for c, r in zip(cases, impl)])
-    failures = []; nontrivial = set(); dist = {"accepted": 0, "rejected": 0, "components": 0, "systems": 0, "with_signals": 0, "unsat_both": 0}
+    failures = []; nontrivial = set(); dist = {"accepted": 0, "rejected": 0, "components": 0, "systems": 0, "with_signals": 0, "unsat_both": 0, "sys_okb_holds": 0, "doc_names_distinct": 0, "system_theorem_applies": 0}
     for c, m, r in zip(cases, model, impl):
         if not isinstance(r, dict) or r.get("outcome") not in ("ok", "rejected"):
             failures.append({"kind": "disagreement", "key": "impl-run", "summary": "runner failed: %r" % (r,), "replay": {"files": c["files"]}}); continue
@@ -202,6 +202,22 @@ def run(tier, seed, build):
         # model vs implementation
         if m[0] == "Ok":
             ml = canon_model(m[1][1])
+            # hypotheses of the system-level theorem (C03_system_document_equivalent), evaluated by the extracted model
+            fl = m[1][2] if len(m[1]) > 2 else []
+            if len(fl) == 2:
+                if fl[0] == "T": dist["sys_okb_holds"] += 1
+                else:
+                    failures.append({"kind": "tie", "key": "sys-okb", "summary": "a system the model loads does not pass sys_okb, the well-formedness hypothesis of the system-level theorem", "replay": rep})
+                if fl[1] == "T": dist["doc_names_distinct"] += 1
+                else:
+                    seen = {}; dups = []
+                    for l in m[1][1]:
+                        if l[0] in ("structure", "sequence"):
+                            k = (l[0], l[1])
+                            if k in seen: dups.append("%s %s" % k)
+                            seen[k] = 1
+                    dist.setdefault("names_defined_twice", []).append(dups[:3])
+                if fl == ["T", "T"]: dist["system_theorem_applies"] += 1
             if r["outcome"] != "ok":
                 failures.append({"kind": "disagreement", "key": "model-accepts", "summary": "model emits, implementation rejects: %s" % r.get("error", "")[:120], "replay": rep})
             elif r.get("lines") is not None and ml != r["lines"]:
